@@ -66,6 +66,17 @@ func Verif_C16_CBEMarshalerReuse() {
 	}) error {
 		return reused.Marshal(v, w)
 	})
+	if verifrt.Choice("unsupportedAgain", 2) == 1 {
+		// the same unsupported type a second time: an error again, like a fresh instance
+		var unsupported chan int
+		verifrt.Known("KF-C16-unsupported-type-poisons-session", true)
+		verifrt.HangBudget(3000000)
+		errAgain := reused.Marshal(unsupported, &verifh.Sink{})
+		errFresh := cbe.NewMarshaler(cfg).Marshal(unsupported, &verifh.Sink{})
+		verifrt.HangBudget(0)
+		verifrt.Reach("unsupported-again")
+		verifrt.Assert(errAgain != nil && errFresh != nil, "an unsupported type is reported as an error every time")
+	}
 	got, want := &verifh.Sink{}, &verifh.Sink{}
 	errGot := reused.Marshal(v, got)
 	errWant := cbe.NewMarshaler(cfg).Marshal(v, want)
